@@ -54,6 +54,16 @@ class Poly:
     def scale(self, c):
         return Poly({k: v * c for k, v in self.t.items()})
 
+    def evaluate(self, vals):
+        """exact value at a point {name: Fraction}"""
+        tot = Fraction(0)
+        for mono, c in self.t.items():
+            v = c
+            for name, e in mono:
+                v *= vals[name] ** e
+            tot += v
+        return tot
+
     def is_zero(self):
         return not self.t
 
